@@ -104,6 +104,8 @@ def check_pbn(boards, layout, stats=None, tmpdir=None):
     got = guard('PbnParser.parse_board_settings raises on an admissible import file (StringIO)', case,
                 lambda: PbnParser().parse_board_settings(io.StringIO(text, newline='')))
     _compare(got, boards, case, 'PBN (StringIO)')
+    for i, bs in enumerate(got):
+        be.use_deal(bs.hands, i)     # the boards read are played on; the second read below must still give the boards written
     d = tmpdir or os.path.join(VERIF_ROOT, '.work', 'C17')
     os.makedirs(d, exist_ok=True)
     fd, path = tempfile.mkstemp(suffix='.pbn', dir=d)
@@ -172,6 +174,10 @@ def check_json(boards, stats=None):
     _compare(got, [dict(b, id=b['board_id']) for b in boards], case, 'JSON')
     for i, (g, b) in enumerate(zip(got, boards)):
         check(g.dda == mk_dda(b['dda']), 'JSON: double-dummy table read back differently', dict(case, board=i), {'got': repr(g.dda)[:200]})
+    for i, g in enumerate(got):
+        be.use_deal(g.hands, i)
+    again = guard('JsonParser.parse_board_settings raises on a written file', case, JsonParser().parse_board_settings, io.StringIO(text))
+    _compare(again, [dict(b, id=b['board_id']) for b in boards], case, 'JSON (second read, after the boards of the first were played on)')
     if stats is not None:
         stats.evaluated()
         stats.cls(f'json: {min(len(boards), 3)}{"+" if len(boards) >= 3 else ""} boards')
